@@ -25,9 +25,17 @@ class Files(staticfiles.BaseFiles[ASGIApp]):
         if_none_match: str,
         if_modified_since: str,
     ) -> Response:
-        if self.if_none_match(
-            FileResponse.generate_etag(stat_result), if_none_match
-        ) or self.if_modified_since(stat_result.st_ctime, if_modified_since):
+        # If-Modified-Since is only evaluated without If-None-Match (RFC 7232 3.3):
+        # the entity tag is the more accurate validator.
+        if if_none_match:
+            not_modified = self.if_none_match(
+                FileResponse.generate_etag(stat_result), if_none_match
+            )
+        else:
+            not_modified = self.if_modified_since(
+                stat_result.st_ctime, if_modified_since
+            )
+        if not_modified:
             response = Response(304)
         else:
             response = FileResponse(filepath, stat_result=stat_result)
